@@ -437,6 +437,18 @@ def spec_check(ctx, budget):
 # --------------------------------------------------------------------------
 # correspondence
 # --------------------------------------------------------------------------
+def _parent_text(seq):
+    """the string the view's SeqView slices (plus strand, as stored)"""
+    sv = seq._seq
+    raw = sv.seq
+    if isinstance(raw, str):
+        return raw
+    try:
+        return sv.alphabet.from_indices(raw)  # new-style views hold an index array
+    except Exception:  # noqa: BLE001
+        return str(raw)
+
+
 def _real_feature(seq, rec):
     """what make_feature builds for one db record on this view, through get_features' own conversion"""
     try:
@@ -509,6 +521,9 @@ def correspondence(ctx):
                         resid = f"raised {type(e).__name__}"
                 reqs.append(("feature", dict(view=vj, minus=f["strand"] == "-", spans=f["spans"])))
                 expect.append(("feature", dict(case=case, feature=f), real, (resid, case, state)))
+                # residue-level model (Model/FeatureSeq.lean getSlice) on the view's own parent string
+                reqs.append(("getslice", dict(view=vj, parent=_parent_text(seq), minus=f["strand"] == "-", spans=f["spans"])))
+                expect.append(("getslice", dict(case=case, feature=f), real, resid))
                 # (c) spec function vs oracle
                 reqs.append(("denote", dict(spans=sorted(f["spans"]), minus=f["strand"] == "-", p0=p0, p1=p1)))
                 expect.append(("denote", dict(feature=f, p0=p0, p1=p1), dict(pos=oracle_positions(f, state), comp=f["strand"] == "-"), None))
@@ -525,18 +540,19 @@ def correspondence(ctx):
                 bump(out, "window_err", real["err"])
             elif inp["window"] != [None, None]:
                 out["nontrivial"].add(("w", json.dumps(inp["case"]["ops"]), inp["case"]["text"], str(inp["window"])))
+        elif kind == "getslice":
+            if "err" in real:
+                if rep != real:
+                    add_failure(out, "corr", "getSlice model and get_slice disagree about raising", inp, rep, real, confirmed=False)
+            elif isinstance(extra, str) and extra.startswith("raised"):
+                bump(out, "get_slice_raised", extra)
+            elif rep != extra:
+                add_failure(out, "corr", "getSlice model differs from the residues get_slice returned", inp, rep, extra, confirmed=False)
         elif kind == "denote":
             if rep != real:
                 add_failure(out, "corr", "Spec.denote differs from the Python oracle", inp, rep, real, confirmed=False)
         else:
             resid, case, state = extra
-            model_map = None if "err" in rep else dict(spans=rep["spans"], reversed=rep["reversed"])
-            if model_map != real and touches(case, state, inp["feature"]) and "err" not in real \
-                    and (resid == oracle_slice(case, inp["feature"], state) or str(resid).startswith("raised")):
-                # boundary-touching span: the model mirrors the unrepaired make_feature on this branch; a tree that
-                # returns the spec's residues here is right (spec_check decides), not a broken tie
-                bump(out, "boundary_touch", "real-matches-spec-not-model")
-                continue
             if "err" in real or "err" in rep:
                 bump(out, "feature_err", str(real.get("err")))
                 if real != rep:
